@@ -3,9 +3,9 @@ import os, subprocess, time, re
 from concurrent.futures import ThreadPoolExecutor
 from vp import build, core
 
-OPS = "iskbfhcdx"
+OPS = "iskbfhcmdx"
 NAMES = dict(i="init", s="convert(small)", k="convert(kitchen sink: headings, definitions, table, notes)", b="convert(1500 tokens, two slabs)", f="fill the slab exactly", h="parse and hold a tree",
-             c="inspect held tree", d="drain", x="free")
+             c="inspect held tree", m="metadata queries on the held engine", d="drain", x="free")
 
 def exe():
     return build.link("asan", "c18", ["c18.c"], exclude=("token.c",))
@@ -26,7 +26,7 @@ def legal(hist):
         if o == "i": out.append(o)
         elif o in "skbf" and count > 0: out.append(o)
         elif o == "h" and count > 0 and not held: out.append(o)
-        elif o == "c" and held: out.append(o)
+        elif o in "cm" and held: out.append(o)
         elif o == "d" and count > 0: out.append(o)
         elif o == "x" and count == 0 and exists: out.append(o)
     return out
